@@ -378,6 +378,18 @@ def fam_conn(tier, seed):
                           "fault": rng.choice(["fail:timeout", "fail:notfound", "hang", "timeout"]), "from_nth": 1, "count": rng.randrange(1, 3)})
         out.append(scn("conn-%s-%d" % (gmode, k), seed * 1000 + k, H, ratio, insts, steps, "conn", end, rules=rules,
                        part_timeout_us=2 * S))
+    # a stop call overlapping the expiry of the grace timer: Stop's critical section is held open by a gated metrics
+    # callback and released at the very instant the timer fires (lock order e.mu/d.mu)
+    for k in range(6 if tier == "quick" else 40):
+        H = rng.choice([200 * MS, 500 * MS, 1 * S])
+        grace = 2 * H
+        tdisc = int((1.3 + rng.random()) * H)
+        tstop = tdisc + grace - rng.choice([1, 1000, 50 * MS])
+        insts = [inst("A", conn=True, grace_us=grace, gate_stop_metric=True)]
+        steps = [{"at": 0, "do": "start", "i": "A"}, {"at": tdisc, "do": "disc", "i": "A"},
+                 dict(rng.choice(STOP_VARIANTS), at=tstop, i="A"),
+                 {"at": tdisc + grace, "do": "release_gate", "i": "A"}]
+        out.append(scn("conn-stop-at-grace-%d" % k, seed * 1000 + 900 + k, H, 3.0, insts, steps, "conn", tstop + 8 * S))
     return out
 
 
@@ -459,6 +471,78 @@ def fam_groups(tier, seed):
 
 FAMILIES = {"core": fam_core, "stop": fam_stop, "faults": fam_faults, "vacancy": fam_vacancy, "prio": fam_prio,
             "health": fam_health, "conn": fam_conn, "validate": fam_validate, "groups": fam_groups}
+
+
+def fam_regress(tier, seed):
+    """directed schedules for interleavings first found by TLC on Election.tla (counterexamples of named deviations)
+    or by the random families, kept as regression schedules with randomised timing constants."""
+    rng = random.Random(seed * 7919 + 10)
+    out = []
+    reps = 3 if tier == "quick" else 25
+    for k in range(reps):
+        H = rng.choice([500 * MS, 1 * S])
+        ratio = rng.choice([3.0, 5.0])
+        two = [inst("A"), inst("B")]
+        # 1. double promotion: B's Create applied, record removed, a second Create of B applied, both answered
+        out.append(scn("reg-double-promotion-%d" % k, seed * 1000 + k, H, ratio, [inst("A"), inst("B")], [
+            {"at": 0, "do": "start", "i": "A"}, {"at": H // 10, "do": "start", "i": "B"},
+            {"at": int(2.5 * H), "do": "stopctx", "i": "A", "del": True},
+            {"when": {"i": "B", "kind": "create", "src": "acq", "nth": 6, "phase": "post"}, "do": "out_del",
+             "then": [{"do": "sleep", "us": 900 * MS}]}], "regress", 9 * H + 2 * S, lat=20 * MS, watch=30 * MS))
+        # 2. restart with a round of the previous run still in flight
+        out.append(scn("reg-restart-stale-round-%d" % k, seed * 1000 + k, H, ratio, [inst("A"), inst("B")], [
+            {"at": 0, "do": "start", "i": "B"}, {"at": H // 10, "do": "start", "i": "A"},
+            {"at": int(2.5 * H), "do": "stopctx", "i": "B", "del": True},
+            {"when": {"i": "A", "kind": "create", "src": "acq", "nth": 6, "phase": "pre"}, "do": "stopctx", "i": "A",
+             "then": [{"do": "sleep", "us": 10 * MS}, {"do": "start", "i": "A"}], "release": "now"}], "regress", 9 * H + 2 * S, lat=20 * MS, watch=30 * MS))
+        # 3. periodic-check read of the follower answered after it won the election (follower bookkeeping vs. leader state)
+        for ph in ("pre", "post"):
+            out.append(scn("reg-check-read-across-promotion-%s-%d" % (ph, k), seed * 1000 + k, H, ratio, [inst("A"), inst("B")], [
+                {"at": 0, "do": "start", "i": "A"}, {"at": H // 10, "do": "start", "i": "B"},
+                {"when": {"i": "B", "kind": "get", "src": "check", "nth": rng.choice([2, 3, 4]), "phase": ph}, "do": "stopctx", "i": "A", "del": True,
+                 "then": [{"do": "sleep", "us": rng.choice([300, 500, 800]) * MS}]}], "regress", 8 * H + 2 * S, lat=20 * MS, watch=30 * MS))
+        # 4. late notification of the previous leader's last version reaches the new leader
+        out.append(scn("reg-late-event-%d" % k, seed * 1000 + k, H, ratio, [inst("A"), inst("B")], [
+            {"at": 0, "do": "start", "i": "A"}, {"at": H // 10, "do": "start", "i": "B"},
+            {"at": int(2.2 * H), "do": "stopctx", "i": "A", "del": True}],
+            "regress", 8 * H + 2 * S, lat=20 * MS, watch=30 * MS,
+            rules=[{"match": {"i": "B", "kind": "deliver"}, "fault": "slow:%d" % (rng.choice([600, 900, 1400]) * MS), "from_nth": 3, "count": 2}]))
+        # 5. a heartbeat of a finished term still waiting for its answer when the next term starts
+        out.append(scn("reg-old-term-loop-%d" % k, seed * 1000 + k, H, ratio, [inst("A", health_n=1, health="hu", health_rest="h")], [
+            {"at": 0, "do": "start", "i": "A"},
+            {"when": {"i": "A", "kind": "update", "src": "hb", "nth": 1, "phase": "pre"}, "do": "noop",
+             "then": [{"do": "sleep", "us": int(0.9 * S)}], "release": "timeout"}], "regress", 12 * H + 4 * S, lat=20 * MS, watch=30 * MS,
+            part_timeout_us=int(0.95 * S)))
+        # 6. StopWithContext{DeleteKey} by a leader whose record has just been replaced
+        for cls in ("as:B", "other"):
+            out.append(scn("reg-delete-after-loss-%s-%d" % (cls.replace(":", "_"), k), seed * 1000 + k, H, ratio, [inst("A"), inst("B")], [
+                {"at": 0, "do": "start", "i": "A"}, {"at": H // 10, "do": "start", "i": "B"},
+                {"at": int(2.3 * H), "do": "out_put", "cls": cls},
+                {"at": int(2.3 * H) + rng.choice([1, 50, 200]) * MS, "do": "stopctx", "i": "A", "del": True}], "regress", 8 * H + 2 * S, lat=20 * MS, watch=30 * MS))
+    return out
+
+
+FAMILIES["regress"] = fam_regress
+
+
+def fam_witness(tier, seed):
+    """strict schedules derived from TLC behaviours of Election.tla (tools/witness.py): shortest counterexamples of the
+    named deviations; on the unchanged tree they pass, on a tree with the deviation they make the monitor fail."""
+    import glob, json, os
+    out = []
+    root = os.path.dirname(os.path.dirname(os.path.abspath(__file__)))
+    for p in sorted(glob.glob(os.path.join(root, "schedules", "*.json"))):
+        sc = json.load(open(p))
+        for k in range(1 if tier == "quick" else 5):
+            c = json.loads(json.dumps(sc))
+            c["seed"] = seed * 1000 + k
+            if k:
+                c["name"] = "%s~r%d" % (sc["name"], k)
+            out.append(c)
+    return out
+
+
+FAMILIES["witness"] = fam_witness
 
 
 def generate(family, tier, seed):
